@@ -9,6 +9,8 @@
 
 pub mod clock;
 pub mod pure;
+pub mod sched;
+pub mod shim;
 
 pub use crate::benchmark::verif_hooks as bench;
 pub use crate::divan::verif_hooks as runner;
